@@ -85,6 +85,7 @@ class CallGraph:
         model = self.model
         out: Set[str] = set()
         virtual: List[tuple] = []
+        typed: List[tuple] = []
         class_refs: Set[str] = set()
         owner = model.enclosing_class(fi)
         env = Env(model, fi)
@@ -125,6 +126,18 @@ class CallGraph:
                         continue
                     if kind == "method":
                         out.update(targets)
+                        self.resolved += 1
+                        continue
+                    rc = self.receiver_classes(fi, env, recv)
+                    if rc is not None:
+                        # receiver of a known class (constructed here / annotated): MRO lookup
+                        exact, classes = rc
+                        typed.append((exact, tuple(classes), f.attr))
+                        for cq in classes:
+                            for k in ([cq] if exact else model.subclasses(cq)):
+                                mm = model.find_method(k, f.attr)
+                                if mm is not None:
+                                    out.add(mm.qualname)
                         self.resolved += 1
                         continue
                     if isinstance(recv, ast.Name) and recv.id in BUILTIN_RECEIVERS and not env.shadowed(recv.id) and model.resolve_name(fi.module, recv.id) is None:
@@ -177,9 +190,82 @@ class CallGraph:
                     out.add(q)
                 elif q in model.classes:
                     class_refs.add(q)
-        res = (out, virtual, class_refs)
+        res = (out, virtual, class_refs, typed)
         self._edges[fi.qualname] = res
         return res
+
+    def _class_of_ctor(self, fi: FuncInfo, env: Env, call) -> Optional[tuple]:
+        """(exact?, [classes]) for `C(...)` / `cls_var(...)` with cls_var: Type[C]"""
+        if not isinstance(call, ast.Call):
+            return None
+        f = call.func
+        if isinstance(f, ast.Name):
+            nc = self._nested_class(fi, f.id)
+            if nc is not None:
+                return (True, [nc])
+            if not env.shadowed(f.id):
+                q = self.model.resolve_name(fi.module, f.id)
+                if q in self.model.classes:
+                    return (True, [q])
+            # a parameter annotated Type[C]
+            g = fi
+            while g is not None:
+                for a in (*g.node.args.args, *g.node.args.kwonlyargs):
+                    if a.arg == f.id and a.annotation is not None:
+                        ann = a.annotation
+                        if isinstance(ann, ast.Subscript) and (dotted(ann.value) or "").split(".")[-1] == "Type":
+                            inner = ann.slice
+                            while isinstance(inner, ast.Subscript):
+                                inner = inner.value
+                            q = self.model.resolve_dotted(g.module, dotted(inner) or "")
+                            if q in self.model.classes:
+                                return (False, [q])
+                g = g.parent
+        elif isinstance(f, ast.Attribute):
+            q = env.resolve(f)
+            if q in self.model.classes:
+                return (True, [q])
+            # `builder.RefsExtractor(...)`: a class stored as a class attribute
+            vals = []
+            for ci in self.model.classes.values():
+                v = ci.attrs.get(f.attr)
+                t = dotted(v) if v is not None else None
+                if t:
+                    cq = self.model.resolve_dotted(ci.module, t)
+                    if cq in self.model.classes and cq not in vals:
+                        vals.append(cq)
+            if vals:
+                return (True, vals)
+        return None
+
+    def receiver_classes(self, fi: FuncInfo, env: Env, recv) -> Optional[tuple]:
+        """static class of a method-call receiver, when it is syntactically evident"""
+        if isinstance(recv, ast.Call):
+            return self._class_of_ctor(fi, env, recv)
+        if isinstance(recv, ast.Name) and recv.id not in ("self", "cls"):
+            vals = []
+            g = fi
+            while g is not None and not vals:
+                for n in walk_no_nested(g.node):
+                    if isinstance(n, ast.Assign) and any(isinstance(t, ast.Name) and t.id == recv.id for t in n.targets):
+                        vals.append((g, n.value))
+                g = g.parent
+            if len(vals) == 1:
+                return self._class_of_ctor(vals[0][0], Env(self.model, vals[0][0]), vals[0][1])
+            return None
+        if isinstance(recv, ast.Attribute) and isinstance(recv.value, ast.Name) and recv.value.id == "self":
+            owner = self.model.enclosing_class(fi)
+            if owner is None:
+                return None
+            found = []
+            for c in self.model.mro(owner.qualname):
+                for m in self.model.classes[c].methods.values():
+                    for n in walk_no_nested(m.node):
+                        if isinstance(n, ast.Assign) and any(isinstance(t, ast.Attribute) and t.attr == recv.attr and isinstance(t.value, ast.Name) and t.value.id == "self" for t in n.targets):
+                            found.append((m, n.value))
+            if len(found) == 1:
+                return self._class_of_ctor(found[0][0], Env(self.model, found[0][0]), found[0][1])
+        return None
 
     def _is_visitor(self, cls_q: str) -> bool:
         return VISITOR_ROOT in self.model.classes and self.model.is_subclass(cls_q, VISITOR_ROOT)
@@ -198,7 +284,7 @@ class CallGraph:
         return out
 
     def callees(self, fi: FuncInfo, instantiated: Optional[Set[str]] = None) -> Set[str]:
-        static, virtual, _ = self.summary(fi)
+        static, virtual, _, _t = self.summary(fi)
         out = set(static)
         for owner, name, after in virtual:
             allowed = None
@@ -241,6 +327,102 @@ class CallGraph:
                 self.instantiated = instantiated
                 return prev
             instantiated |= closure
+
+    # ------------------------------------------------------------ object-sensitive
+    def reachable_ctx(self, roots: Iterable[str]) -> Dict[tuple, Optional[tuple]]:
+        """Reachability with one level of object sensitivity for the visitor
+        hierarchy: nodes are (function, concrete visitor class of `self` or None).
+        `self.m()` / `super().m()` inside a visitor method resolve in the MRO of the
+        concrete class; constructor / typed-receiver calls enter a visitor with its
+        class; only an untyped receiver falls back to every instantiated subclass."""
+        model = self.model
+        self.reachable(roots)  # computes self.instantiated (RTA)
+        inst = self.instantiated or set()
+        prev: Dict[tuple, Optional[tuple]] = {}
+        work = []
+        for r in roots:
+            if r in model.functions:
+                k = (r, None)
+                prev[k] = None
+                work.append(k)
+
+        def visitor_ctxs(fq: str) -> List[Optional[str]]:
+            f = model.functions[fq]
+            oc = model.enclosing_class(f)
+            if oc is None or not self._is_visitor(oc.qualname):
+                return [None]
+            ks = [k for k in model.subclasses(oc.qualname) if k in inst and model.find_method(k, f.name) is f]
+            return ks or [oc.qualname]
+
+        def push(src, fq, ctx):
+            if fq not in model.functions:
+                return
+            node = (fq, ctx)
+            if node not in prev:
+                prev[node] = src
+                work.append(node)
+
+        while work:
+            node = work.pop()
+            fq, ctx = node
+            fi = model.functions[fq]
+            static, virtual, class_refs, typed = self.summary(fi)
+            owner = model.enclosing_class(fi)
+            is_vis = owner is not None and self._is_visitor(owner.qualname)
+            # nested functions run with the same self
+            typed_targets = set()
+            for exact, classes, attr in typed:
+                for cq in classes:
+                    ks = [cq] if exact else [k for k in model.subclasses(cq) if (not self._is_visitor(k)) or k in inst or k == cq]
+                    for k in ks:
+                        mm = model.find_method(k, attr)
+                        if mm is not None:
+                            typed_targets.add(mm.qualname)
+                            push(node, mm.qualname, k if self._is_visitor(k) else None)
+            for c in class_refs:
+                if self._is_visitor(c):
+                    for name in ("__init__", "__post_init__"):
+                        mm = model.find_method(c, name)
+                        if mm is not None:
+                            push(node, mm.qualname, c)
+            for tq in static:
+                if tq in typed_targets:
+                    continue
+                tf = model.functions.get(tq)
+                if tf is None:
+                    continue
+                if tf.parent is not None and tf.parent.qualname == fq or (tf.parent is not None and self.model.enclosing_class(tf) is owner and is_vis):
+                    push(node, tq, ctx)  # nested closure: same self
+                    continue
+                toc = model.enclosing_class(tf)
+                if toc is not None and self._is_visitor(toc.qualname):
+                    if any(tq == model.find_method(c, tf.name).qualname for c in class_refs if self._is_visitor(c) and model.find_method(c, tf.name) is not None):
+                        continue  # constructor targets handled above
+                    for k in visitor_ctxs(tq):
+                        push(node, tq, k)
+                else:
+                    push(node, tq, None)
+            for vowner, name, after in virtual:
+                if self._is_visitor(vowner):
+                    ks = [ctx] if (ctx is not None and is_vis) else [k for k in model.subclasses(vowner) if k in inst]
+                    for k in ks:
+                        if k is None or vowner not in model.mro(k):
+                            continue
+                        mm = model.find_method(k, name, after=after)
+                        if mm is not None:
+                            push(node, mm.qualname, k)
+                else:
+                    for tq in self._virtual(vowner, name, after):
+                        push(node, tq, None)
+        return prev
+
+    @staticmethod
+    def chain_ctx(prev, node, limit: int = 8) -> List[str]:
+        out = []
+        while node is not None and len(out) < limit:
+            out.append(node[0].split("apischema.")[-1] + (f"[{node[1].split('.')[-1]}]" if node[1] else ""))
+            node = prev.get(node)
+        return list(reversed(out))
 
     @staticmethod
     def chain(prev: Dict[str, Optional[str]], q: str, limit: int = 8) -> List[str]:
